@@ -456,13 +456,21 @@ Definition o_chmod (s : ofs) (name : str) (mode : N) : ofs * res :=
   | Some (c, cn) => (o_with_heap s (oupd (o_heap s) c (on_with_meta cn (with_mode (on_meta cn) mode))), ROk)
   end.
 
+(* node.setOwner: as chown(2) by an administrator, the set-user-ID bit of a node that is not a directory is cleared,
+   and its set-group-ID bit when the group-execute bit is set *)
+Definition o_chown_meta (m : meta) (uid gid : Z) : meta :=
+  let m1 := if has (m_mode m) MODE_DIR then m
+            else let a := N.ldiff (m_mode m) MODE_SETUID in
+                 {| m_mode := if has (m_mode m) 8 then N.ldiff a MODE_SETGID else a; m_uid := m_uid m; m_gid := m_gid m |} in
+  with_owner m1 uid gid.
+
 (* Chown / Lchown (identical: there are no symbolic links) *)
 Definition o_chown (s : ofs) (name : str) (uid gid : Z) : ofs * res :=
   if owin s then (s, RFail EOpNotPermitted)
   else match ofind s (oabs s name) with
        | None => (s, o_enf s (oabs s name) (RFail ENoSuchFile))
        | Some (c, cn) =>
-           (o_with_heap s (oupd (o_heap s) c (on_with_meta cn (with_owner (on_meta cn) uid gid))), ROk)
+           (o_with_heap s (oupd (o_heap s) c (on_with_meta cn (o_chown_meta (on_meta cn) uid gid))), ROk)
        end.
 
 (* Chtimes (the time itself is not modelled) *)
@@ -611,7 +619,7 @@ Section OFileOps.
   Definition of_chown (uid gid : Z) : ofs * res :=
     o_prologue EG_Closed (fun e => (s, RFail e)) (fun c nd =>
       if isw then (s, RFail EW_NotSupported)
-      else (o_with_heap s (oupd h c (on_with_meta nd (with_owner (on_meta nd) uid gid))), ROk)).
+      else (o_with_heap s (oupd h c (on_with_meta nd (o_chown_meta (on_meta nd) uid gid))), ROk)).
 
   Definition of_chdir : ofs * res :=
     o_prologue EG_Closed (fun e => (s, RFail e)) (fun c nd =>
